@@ -6,12 +6,14 @@ package storeform
 
 import (
 	"bytes"
+	"context"
 	"encoding/json"
 	"fmt"
 	"math/big"
 
 	ledger "github.com/formancehq/ledger/internal"
 	"github.com/formancehq/ledger/internal/storage/ledgerstore"
+	"github.com/formancehq/ledger/verifharness/sqlrec"
 	"github.com/formancehq/stack/libs/go-libs/bun/bunpaginate"
 )
 
@@ -33,11 +35,39 @@ func JSONB(in []byte) ([]byte, error) {
 	return bytes.TrimSpace(buf.Bytes()), nil
 }
 
+// insertedData runs ledgerstore.Store.InsertLogs for cl over a recording driver and returns the value bound to the
+// data column.
+func insertedData(ledgerName string, cl *ledger.ChainedLog) (out []byte, err error) {
+	script := &sqlrec.TxScript{FailAt: -1}
+	db := sqlrec.NewDB(&sqlrec.Recorder{Tx: script})
+	defer db.Close()
+	defer func() {
+		if p := recover(); p != nil {
+			out, err = nil, fmt.Errorf("InsertLogs panicked: %v", p)
+		}
+	}()
+	if err := ledgerstore.NewStoreForVerif(db, "bucket", ledgerName).InsertLogs(context.Background(), cl); err != nil {
+		return nil, fmt.Errorf("InsertLogs: %w", err)
+	}
+	if len(script.Committed) != 1 || len(script.Committed[0]) < 6 {
+		return nil, fmt.Errorf("InsertLogs committed %d row(s)", len(script.Committed))
+	}
+	switch v := script.Committed[0][5].(type) {
+	case string:
+		return []byte(v), nil
+	case []byte:
+		return v, nil
+	default:
+		return nil, fmt.Errorf("data column bound to a %T", v)
+	}
+}
+
 // Row builds the row InsertLogs would write for cl.
 func Row(ledgerName string, cl *ledger.ChainedLog) (*ledgerstore.Logs, error) {
-	data, err := json.Marshal(cl.Data)
+	// the payload is what the real InsertLogs hands to the database driver for the jsonb column
+	data, err := insertedData(ledgerName, cl)
 	if err != nil {
-		return nil, fmt.Errorf("marshal data: %w", err)
+		return nil, err
 	}
 	data, err = JSONB(data)
 	if err != nil {
